@@ -1,51 +1,65 @@
 """C28 Multi-node clients rotate through nodes regardless of failures."""
 from vf.core import Ob
-from vf.xh import assume
 
-TARGETS = ['pytezos.rpc.node.RpcMultiNode.request', 'pytezos.rpc.node.RpcMultiNode.__init__', 'pytezos.rpc.node.RpcNode.request']
-STUBS = ['requests.request -> fake recording the URL; outcome per request chosen by the solver: 200 | 404 (RpcError) | '
-         '500 non-transient (RpcError) | transport exception (requests ConnectionError)',
+TARGETS = ['pytezos.rpc.node.RpcMultiNode.request', 'pytezos.rpc.node.RpcMultiNode.__init__', 'pytezos.rpc.node.RpcNode.request', 'pytezos.rpc.node.RpcNode.__init__',
+           'pytezos.rpc.node._is_transient_response']
+STUBS = ['requests.request -> fake recording the URL; what each client request meets is chosen by the solver: 200 | 404 (RpcError) | 500 permanent (RpcError) | transport exception '
+         '(requests ConnectionError) | one transient 5xx then 200 | two transient 5xx then 404 | six transient 5xx (retries exhausted)',
          'pytezos.rpc.node.sleep -> no-op', 'json.dumps/pformat in log lines -> constant']
-BOUNDS = {'quick': 'nodes 1..4 (one obligation each), 5 requests, every outcome vector over 4 outcome kinds symbolic',
-          'thorough': 'nodes 1..4, 7 requests, every outcome vector over 4 outcome kinds symbolic'}
+BOUNDS = {'quick': 'pools of 1..4 nodes; (a) distinct addresses, 5 client requests, every outcome vector over the 7 outcome kinds; (b) every pool whose slots are chosen among two addresses '
+                   '(one of them also written with a trailing slash), 4 client requests over 3 outcome kinds',
+          'thorough': '6 client requests in (a), 5 in (b)'}
 OUTSIDE = ['more than 4 nodes / longer request sequences', 'HTTP transport itself']
-ASSUMPTIONS = ['a failing request is one for which RpcNode.request raises (RpcError for an HTTP error status, or the '
-               'transport exception raised by requests)']
+ASSUMPTIONS = ['a failing request is one for which RpcNode.request raises (RpcError for an HTTP error status, or the transport exception raised by requests)',
+               'client request i (0-based) must send every one of its HTTP calls (including internal retries of transient errors) to the address configured in slot i mod n']
 
-OK, E404, E500, ECONN = range(4)
+OK, E404, E500, ECONN, T1_OK, T2_404, T6 = range(7)
+KINDS = ['200', '404', '500-permanent', 'connection-error', 'transient-then-200', 'transient-x2-then-404', 'transient-x6']
+SCRIPTS = {OK: ['200'], E404: ['404'], E500: ['500'], ECONN: ['conn'], T1_OK: ['T', '200'], T2_404: ['T', 'T', '404'], T6: ['T'] * 6}
+ADDR = ['http://node-a', 'http://node-b', 'http://node-a/']
 
 
 class _Resp:
     def __init__(self, kind):
-        self.status_code = {OK: 200, E404: 404, E500: 500}[kind]
-        self.text = 'x'
-        self.headers = {'content-type': 'text/plain'}
+        self.status_code = {'200': 200, '404': 404, '500': 500, 'T': 503}[kind]
+        if kind == 'T':
+            self.headers = {'content-type': 'application/json'}
+            self._json = [{'id': 'node.prevalidation.busy', 'kind': 'temporary'}]
+            self.text = '[{"id": "node.prevalidation.busy", "kind": "temporary"}]'
+        else:
+            self.headers = {'content-type': 'text/plain'}
+            self._json = {}
+            self.text = 'x'
 
     def json(self):
-        return {}
+        return self._json
 
 
-def _drive(n, outcomes):
+def _drive(uris, outcomes):
+    """-> list (one entry per client request) of the URLs hit by that request"""
     import requests.exceptions
 
     from pytezos.rpc import node as N
     from vf.stubs import const_stub, json_log_stub, patched
 
-    uris = [f'http://node{i}' for i in range(n)]
     hits = []
-    it = iter(outcomes)
+    script = []
 
     def fake_request(method, url, **kw):
-        hits.append(int(url[len('http://node'):].split('/')[0]))
-        kind = next(it)
-        if kind == ECONN:
+        hits[-1].append(url)
+        if not script:
+            raise RuntimeError('more HTTP calls than scripted')
+        kind = script.pop(0)
+        if kind == 'conn':
             raise requests.exceptions.ConnectionError('refused')
         return _Resp(kind)
 
     with patched((N.requests, 'request', fake_request), (N, 'sleep', lambda d: None),
                  (N, 'json', json_log_stub(N.json)), (N, 'pformat', const_stub('<pformat>'))):
-        mn = N.RpcMultiNode(uris)
-        for _ in outcomes:
+        mn = N.RpcMultiNode(list(uris))
+        for o in outcomes:
+            hits.append([])
+            script[:] = list(SCRIPTS[o])
             try:
                 mn.request('GET', 'chains/main/blocks/head')
             except (N.RpcError, requests.exceptions.ConnectionError):
@@ -53,34 +67,64 @@ def _drive(n, outcomes):
     return hits
 
 
-def pick(c, n):
-    for k in range(n):
-        if c == k:
-            return k
-    assume(False)
+def _norm(u):
+    return u.rstrip('/')
 
 
-def _mk(k):
-    params = ', '.join(f'o{i}: int' for i in range(k))
-    ns = {'pick': pick, '_drive': _drive}
-    exec(f'def sym(P, {params}) -> bool:\n'
-         f'    n = P["n"]\n'
-         f'    outs = [pick(o, 4) for o in [{", ".join("o%d" % i for i in range(k))}]]\n'
-         f'    hits = _drive(n, outs)\n'
-         f'    return hits == [i % n for i in range(len(outs))]\n', ns)
-    return ns['sym']
+def _verdict(uris, outcomes):
+    hits = _drive(uris, outcomes)
+    n = len(uris)
+    problems = []
+    for i, (o, h) in enumerate(zip(outcomes, hits)):
+        want = _norm(uris[i % n])
+        if len(h) != len(SCRIPTS[o]):
+            problems.append(f'request {i} ({KINDS[o]}) made {len(h)} HTTP calls, expected {len(SCRIPTS[o])}')
+        for url in h:
+            host = _norm(url.split('/chains/')[0])
+            if host != want:
+                problems.append(f'request {i} ({KINDS[o]}) went to {host}, slot {i % n} is {want}')
+                break
+    return problems, hits
+
+
+def _decode(P, get):
+    n, k = P['n'], P['k']
+    if P['family'] == 'distinct':
+        uris = [f'http://node{i}' for i in range(n)]
+        outs = [get(f'o{i}', 0, 6) for i in range(k)]
+    else:
+        uris = [ADDR[get(f'u{i}', 0, 2)] for i in range(n)]
+        outs = [[OK, E404, T1_OK][get(f'o{i}', 0, 2)] for i in range(k)]
+    return uris, outs
+
+
+def sym(P, ex):
+    from harness import mbv
+
+    uris, outs = _decode(P, lambda name, lo, hi: mbv._choose(ex, name, lo, hi))
+    problems, _ = _verdict(uris, outs)
+    if problems:
+        ex.fail_here(problems[0])
+    ex.check(True)
 
 
 def concrete(P, w):
-    k, n = P['k'], P['n']
-    outs = [int(w[f'o{i}']) for i in range(k)]
-    hits = _drive(n, outs)
-    exp = [i % n for i in range(k)]
-    return {'ok': hits == exp, 'observed': hits, 'expected': exp}
+    uris, outs = _decode(P, lambda name, lo, hi: int(w.get(name, lo)))
+    problems, hits = _verdict(uris, outs)
+    return {'ok': not problems, 'pool': uris, 'outcomes': [KINDS[o] for o in outs], 'observed': problems[:3], 'hits': hits}
 
 
 def obligations(tier):
-    k = 5 if tier == 'quick' else 7
-    return [Ob(name=f'rotation/n={n}/k={k}', engine='xh', sym=_mk(k), concrete=concrete, P={'k': k, 'n': n},
-               timeout=120 if tier == 'quick' else 900, bounds=f'{n} node(s), {k} requests, outcome of each request symbolic over 4 kinds',
-               targets=TARGETS, stubs=STUBS) for n in (1, 2, 3, 4)]
+    q = tier == 'quick'
+    obs = []
+    for n in (1, 2, 3, 4):
+        k = 5 if q else 6
+        obs.append(Ob(name=f'rotation/n={n}/k={k}', engine='bvx', sym=sym, concrete=concrete, P={'family': 'distinct', 'k': k, 'n': n},
+                      timeout=600 if q else 3000, bounds=f'{n} node(s) with distinct addresses, {k} client requests, what each meets is chosen by the solver among 7 kinds',
+                      targets=TARGETS, stubs=STUBS, opts={'W': 16}))
+    for n in (2, 3, 4):
+        k = 4 if q else 5
+        obs.append(Ob(name=f'rotation/repeated-addresses/n={n}/k={k}', engine='bvx', sym=sym, concrete=concrete, P={'family': 'repeated', 'k': k, 'n': n},
+                      timeout=600 if q else 3000, bounds=f'{n} slots, each one of 3 spellings of 2 addresses (solver-chosen), {k} client requests over 3 kinds',
+                      targets=TARGETS, stubs=STUBS, opts={'W': 16}))
+    return obs
